@@ -6,7 +6,7 @@
 
 // ------------------------------------------------------------------------------------------------
 enum { S_BUILD, S_BUILDM, S_CONST, S_VAR, S_OP, S_NOT, S_VIA, S_ASSIGN, S_SELFASSIGN, S_RELEASE, S_RELEASEALL, S_CLEAR, S_STALES, S_CLEARALL,
-       S_DUP, S_UNDUP, S_CHURNUP, S_CHURNDOWN, S_WARM, S_BUILDR, S_IMG, S_REACH, S_DESTROYG, S_BUILDOP, S_CARD };
+       S_DUP, S_UNDUP, S_CHURNUP, S_CHURNDOWN, S_WARM, S_BUILDR, S_IMG, S_REACH, S_DESTROYG, S_BUILDOP, S_CARD, S_SURGE };
 struct Sym { int type; int a,b,c,d; };
 
 static const char* OPNAME[8] = {"op0","op1","op2","op3","op4","op5","op6","op7"};
@@ -39,6 +39,7 @@ static std::string sym_str(const Sym& y)
         case S_DESTROYG: snprintf(b,sizeof b,"DESTROY_OTHER_FOREST"); break;
         case S_BUILDOP: snprintf(b,sizeof b,"BUILDOP(f%d,f%d,%d->r%d)",y.a,y.b,y.c,y.d); break;
         case S_CARD: snprintf(b,sizeof b,"CARD(r%d)",y.a); break;
+        case S_SURGE: snprintf(b,sizeof b,"SURGE(r%d,%d,%d,%d)",y.a,y.b,y.c,y.d); break;
         default: snprintf(b,sizeof b,"?");
     }
     return b;
@@ -159,6 +160,8 @@ static void exec_history(const Scn& H, const std::vector<int>& hist, const Cfg& 
                 case S_CLEARALL: if (!compute_table::removeAllFromMonolithic()) { F->removeAllComputeTableEntries(); if (Galive) G->removeAllComputeTableEntries(); if (R) R->removeAllComputeTableEntries(); } break;
                 case S_DUP: dups.insert(dups.end(), (size_t)y.b, reg[y.a]); break;
                 case S_UNDUP: dups.clear(); break;
+                case S_SURGE: // reference count up to b copies, down to c, up again to d (counter widths grow, then the population shrinks and regrows)
+                    dups.clear(); dups.insert(dups.end(), (size_t)y.b, reg[y.a]); dups.resize((size_t)y.c, dd_edge(F)); dups.insert(dups.end(), (size_t)(y.d-y.c), reg[y.a]); break;
                 case S_CHURNUP: for (int i=0;i<y.a;i++) { churn.emplace_back(F); B.build(tab_from_index(((unsigned long)i*37+5)%H.U,H.P,H.V), churn.back()); } break;
                 case S_CHURNDOWN: churn.clear(); break;
                 case S_WARM: if (ops[0]) { dd_edge a(F), b(F), c(F); for (int i=0;i<y.a;i++) { B.build(tab_from_index(((unsigned long)i*53+11)%H.U,H.P,H.V),a); B.build(tab_from_index(((unsigned long)i*29+3)%H.U,H.P,H.V),b); ops[i%H.nops] ? ops[i%H.nops]->compute(a,b,c) : ops[0]->compute(a,b,c); } } break;
@@ -293,6 +296,7 @@ static void make_scn(Scn& H, const std::map<std::string,std::string>& spec)
         add(S_RELEASEALL); add(S_CLEAR); add(S_STALES);
         for (int n : {254,255,256,257,65535,65536,65537}) add(S_DUP,0,n);
         add(S_UNDUP);
+        add(S_SURGE,0,65537,100,300); add(S_SURGE,1,300,10,70000);
         add(S_CHURNUP,600); add(S_CHURNDOWN);
         add(S_DESTROYG);
         if (H.relscn) { for (int m=0;m<(int)H.rcat.size();m++) add(S_BUILDR,m); add(S_IMG,0,0,2); add(S_IMG,1,0,2); add(S_IMG,0,2,2); for (int a=0;a<3;a++) add(S_REACH,a,0,2); add(S_REACH,2,2,1); }
